@@ -94,7 +94,15 @@ def control_patches(pid):
             continue
         if pid in meta.get("expect_checks", [meta.get("property")]):
             out.append((p, "must-fire"))
-    for p in sorted(glob.glob(os.path.join(facts.VERIF, "selftest", "preserving", "*.diff"))):
+    pres = sorted(glob.glob(os.path.join(facts.VERIF, "selftest", "preserving", "*.diff")))
+    # the whole behaviour-preserving list is exercised by selftest/run.py; each property's thorough run re-checks a
+    # fixed, property-dependent sample of it (the large refactorings first) to stay within minutes
+    k = int(pid[1:]) if pid[1:].isdigit() else 0
+    big = [p for p in pres if os.path.basename(p).startswith(("rf", "rg"))]
+    small = [p for p in pres if p not in big]
+    pick = [big[(k + i * 5) % len(big)] for i in range(min(3, len(big)))] if big else []
+    pick += [small[(k * 3 + i * 7) % len(small)] for i in range(min(5, len(small)))] if small else []
+    for p in sorted(set(pick)):
         out.append((p, "must-stay-silent"))
     return out
 
